@@ -224,6 +224,15 @@ def run_config(cfg):
     else:
         harness = make_model_harness(cfg, tw)
         post = model_post
-    return common.explore(cfg, harness, twin=tw, on_leaf=lambda e, o: post(e, cfg, o), deadline_s=cfg.get("deadline_s", 600),
+    def witness(eng, m, out):
+        if cfg["kind"] != "model" or cfg["model"] not in ("sup", "semi"):
+            return None      # k-NN models branch on values of the uninterpreted exp: a path model need not be realisable
+        ev = lambda v: common.fraction_to_float(eng.eval_model(m, v))
+        p = dict(kind="purity_model", cfg=cfg, feats=[ev(v) for v in out["feats"]])
+        fl = lambda q: [list(map(ev, q[0])), list(map(ev, q[1]))] if isinstance(q, tuple) else [ev(x) for x in q]
+        p["expected"] = dict(preds=fl(out["p1"]))
+        return p
+    return common.explore(cfg, harness, twin=tw, on_leaf=lambda e, o: post(e, cfg, o), witness_fn=witness,
+                          witness_stride=cfg.get("wstride", 7), deadline_s=cfg.get("deadline_s", 600),
                           seed=cfg.get("seed", 0), solver_timeout_ms=cfg.get("timeout_ms", 20000),
                           logic="fresh" if cfg["kind"] == "metric" or cfg.get("fresh") else None)
